@@ -1445,14 +1445,9 @@ where
     T: Node + Clone,
 {
     fn set_named_item(&self, arg: T) -> error::Result<Option<T>> {
-        let name = arg.node_name();
-        if let Ok(v) = self.remove_named_item(name.as_str()) {
-            (self.add)(&self.node, arg)?; // FIXME: revert on failed.
-            Ok(Some(v))
-        } else {
-            (self.add)(&self.node, arg)?;
-            Ok(None)
-        }
+        // `add` replaces the node of the same name and returns it; it checks before it
+        // changes anything, so a refused call leaves the map as it was.
+        (self.add)(&self.node, arg)
     }
 
     fn remove_named_item(&self, name: &str) -> error::Result<T> {
